@@ -465,6 +465,10 @@ def _check_cross(repo, r3):
     ok6, why6 = bitset_width_checked(bi)
     if r3.require(ok6 or why6 == "dominates", bi, "Bitset value-fits-length check", "Bitset.__init__ no longer refuses a value wider than the explicit length (over-long keywords/counters would be truncated silently)"):
         r3.require(ok6, bi, "Bitset check dominates", "Bitset stores value/length before checking the width")
+    cut = bitset_input_cut(bi)
+    r3.require(cut is None, bi, "Bitset width check sees the whole input",
+               "Bitset.__init__ cuts its input down (%s) before the value-fits-length check: an over-long keyword or counter is then "
+               "accepted as its low-order part instead of being refused, so two different inputs get one label" % (short(cut) if cut is not None else ""), cut)
     # registries
     for rel, fn in (("toolkit/prf/__init__.py", "get_prf_implementation"), ("toolkit/prp/__init__.py", "get_prp_implementation"),
                     ("toolkit/symmetric_encryption/__init__.py", "get_symmetric_encryption_implementation"), ("toolkit/hash.py", "get_hash_implementation")):
@@ -492,6 +496,37 @@ def bitset_width_checked(bi):
     if not stores or unpermitted(F6, stores, [too_wide(False)] + no_len):
         return False, "dominates"
     return True, None
+
+
+def bitset_input_cut(bi):
+    """-> the first place where Bitset.__init__ takes a slice of (something computed from) its input value, else None: the width
+    check means something only when it is applied to the whole input - a value that was cut down to the requested width first
+    always fits."""
+    vp = bi.params[1]
+    tainted = {vp}
+    changed = True
+    while changed:
+        changed = False
+        for st in ast.walk(bi.node):
+            if isinstance(st, ast.Assign) and any(isinstance(n, ast.Name) and n.id in tainted for n in ast.walk(st.value)):
+                for t in st.targets:
+                    for n in ast.walk(t):
+                        if isinstance(n, ast.Name) and n.id not in tainted:
+                            tainted.add(n.id)
+                            changed = True
+    in_raise = {id(n) for r in ast.walk(bi.node) if isinstance(r, ast.Raise) for n in ast.walk(r)}
+    for n in ast.walk(bi.node):
+        if isinstance(n, ast.Subscript) and isinstance(n.slice, ast.Slice) and id(n) not in in_raise and \
+                any(isinstance(x, ast.Name) and x.id in tainted for x in ast.walk(n.value)):
+            return n
+    for n in ast.walk(bi.node):
+        # value & mask / value % 2**length before the check has the same effect
+        if isinstance(n, ast.Assign) and isinstance(n.value, ast.BinOp) and isinstance(n.value.op, (ast.BitAnd, ast.Mod)) and \
+                any(isinstance(t, ast.Name) and t.id in tainted for t in n.targets) and \
+                any(isinstance(x, ast.Name) and x.id in tainted for x in ast.walk(n.value.left)) and \
+                any(isinstance(x, ast.Name) and x.id == bi.params[2] for x in ast.walk(n.value.right)):
+            return n
+    return None
 
 
 def _partition_too_small(pf):
